@@ -454,7 +454,9 @@ def grouping_order(ctx: Ctx) -> None:
     loops = [lp for lp in for_loops(j) if isinstance(lp.iter, ast.Name) and lp.iter.id == j.param_names()[0]]
     main = one(loops, f"main loop of {j.fq}")
     mn = cfg.node_for(main)
-    cl = [lp for lp in for_loops(j) if lp is not main and not in_body(main, lp) and isinstance(lp.iter, ast.Call) and ast.unparse(lp.iter) == "held_columns.values()"]
+    from ..pat import matches as _pm
+    cl = [lp for lp in for_loops(j) if lp is not main and not in_body(main, lp) and _pm("$d.values()", lp.iter) and isinstance(lp.iter.func.value, ast.Name)
+          and any(b.kind == "assign" and isinstance(b.value, ast.Dict) and not b.value.keys for b in locals_of(g).b.get(lp.iter.func.value.id, []))]
     ok1 = False
     if len(cl) == 1:
         cn = cfg.node_for(cl[0])
@@ -622,12 +624,15 @@ def ungroup_order(ctx: Ctx) -> None:
     ml = one(main, f"main loop of {f.fq}")
     mn = cfg.node_for(ml)
     whiles = [n for n in body_walk(f.node) if isinstance(n, ast.While)]
-    drain = [w for w in whiles if not in_body(ml, w) and isinstance(w.test, ast.Name) and w.test.id == "pending_tails"]
+    hp = [c for c in calls(f) if callee_name(ctx, f, c).endswith("heapq.heappush") and c.args and isinstance(c.args[0], ast.Name)]
+    require(len({c.args[0].id for c in hp}) == 1, f"{f.fq}: the heap of pending tails is not recognised")
+    H = hp[0].args[0].id
+    drain = [w for w in whiles if not in_body(ml, w) and isinstance(w.test, ast.Name) and w.test.id == H]
     okd = False
     if len(drain) == 1:
         dn = cfg.node_for(drain[0])
         ys = [n for st in drain[0].body for n in walk_no_nested(st) if isinstance(n, ast.Yield)]
-        okd = cfg.dominates(mn, dn) and cfg.must_pass([dn]) is None and len(ys) == 1 and ast.unparse(ys[0].value) == "heappop(pending_tails)"
+        okd = cfg.dominates(mn, dn) and cfg.must_pass([dn]) is None and len(ys) == 1 and ast.unparse(ys[0].value) == f"heappop({H})"
     ctx.expect("R-ORDER", f, "remaining tails are drained after the stream ends, on every path", okd, "", "no 'while pending_tails: yield heappop(pending_tails)' after the main loop", node=ml)
     inner = [lp for lp in for_loops(f) if in_body(ml, lp) and isinstance(lp.iter, ast.Name) and lp.iter.id == ml.target.id]
     il = one(inner, f"row loop of {f.fq}")
@@ -636,9 +641,9 @@ def ungroup_order(ctx: Ctx) -> None:
     okr = False
     if len(rel) == 1:
         t = rel[0].test
-        okr = ast.unparse(t) == f"pending_tails and pending_tails[0] < {nv}"
+        okr = ast.unparse(t) == f"{H} and {H}[0] < {nv}"
         ys = [n for st in rel[0].body for n in walk_no_nested(st) if isinstance(n, ast.Yield)]
-        okr = okr and len(ys) == 1 and ast.unparse(ys[0].value) == "heappop(pending_tails)"
+        okr = okr and len(ys) == 1 and ast.unparse(ys[0].value) == f"heappop({H})"
         # it is the first thing an iteration does
         okr = okr and il.body and il.body[0] is rel[0]
     ctx.expect("R-ORDER", f, "tails that precede a note are released before it (heap order = note order)", okr, "", "the release loop 'while pending_tails and pending_tails[0] < note' changed", node=il)
@@ -647,7 +652,7 @@ def ungroup_order(ctx: Ctx) -> None:
     if len(pushes) == 1:
         fs = facts(ctx, f, pushes[0])
         pos = [a for a, pol in fs if pol and isinstance(a, ast.Call) and ast.unparse(a) == f"isinstance({nv}, NoteWithTail)"]
-        okp = bool(pos) and ast.unparse(pushes[0].args[0]) == "pending_tails"
+        okp = bool(pos) and ast.unparse(pushes[0].args[0]) == H
     ctx.expect("R-ORDER", f, "every joined note pushes exactly one tail", okp, "", f"{len(pushes)} heappush site(s)", node=il)
     # plain notes pass through check_orphan; the head of a joined note too
     co = f.nested.get("check_orphan")
@@ -679,31 +684,33 @@ def timed_rules(ctx: Ctx) -> None:
     nv = lp.target.id
     cons = record_constructions(ctx, f, "simfile.notes.timed.TimedNote")
     ctx.floor("TimedNote constructions", len(cons), 2)
+    engs = [n for n, bs in locals_of(f).b.items() for b in bs if b.kind == "assign" and isinstance(b.value, ast.Call) and callee_name(ctx, f, b.value) == "simfile.timing.engine.TimingEngine"]
+    E = one(engs, f"TimingEngine local in {f.fq}")
     n_same = n_fake = 0
     for c in cons:
         fm = field_map(ctx, "simfile.notes.timed.TimedNote", c)
         t, n = fm.get("time"), fm.get("note")
-        okt = isinstance(t, ast.Call) and ast.unparse(t) == f"engine.time_at({nv}.beat)"
+        okt = isinstance(t, ast.Call) and ast.unparse(t) == f"{E}.time_at({nv}.beat)"
         ctx.expect("R-TABLE", f, f"TimedNote time is the time of the note's beat (default tag)", okt, "", f"time={src(t) if t is not None else 'absent'}", node=c)
         fs = facts(ctx, f, c)
         if isinstance(n, ast.Name) and n.id == nv:
             n_same += 1
             want = any(pol and isinstance(a, ast.BoolOp) and isinstance(a.op, ast.Or) and sorted(ast.unparse(v) for v in a.values) ==
-                       sorted([f"engine.hittable({nv}.beat)", "unhittable_notes == UnhittableNotes.KEEP_NOTE"]) for a, pol in fs) and len(fs) == 1
+                       sorted([f"{E}.hittable({nv}.beat)", "unhittable_notes == UnhittableNotes.KEEP_NOTE"]) for a, pol in fs) and len(fs) == 1
             ctx.expect("R-ORDER", f, "a note is passed on unchanged exactly when hittable or KEEP_NOTE", want, unparse_facts(fs), f"unchanged note emitted under {unparse_facts(fs)}", node=c)
         else:
             n_fake += 1
             tap = any(pol and ast.unparse(a) == f"{nv}.note_type == NoteType.TAP" for a, pol in fs)
             mode = any(pol and ast.unparse(a) == "unhittable_notes == UnhittableNotes.TAP_TO_FAKE" for a, pol in fs)
-            unh = any((not pol) and isinstance(a, ast.BoolOp) and f"engine.hittable({nv}.beat)" in [ast.unparse(v) for v in a.values] for a, pol in fs) or \
-                any((not pol) and ast.unparse(a) == f"engine.hittable({nv}.beat)" for a, pol in fs)
+            unh = any((not pol) and isinstance(a, ast.BoolOp) and f"{E}.hittable({nv}.beat)" in [ast.unparse(v) for v in a.values] for a, pol in fs) or \
+                any((not pol) and ast.unparse(a) == f"{E}.hittable({nv}.beat)" for a, pol in fs)
             ctx.expect("R-ORDER", f, "a fake is built only for an unhittable TAP under TAP_TO_FAKE", tap and mode and unh, unparse_facts(fs), f"fake built under {unparse_facts(fs)}", node=c)
     ctx.expect("R-ORDER", f, "one pass-through site and one fake site", (n_same, n_fake) == (1, 1), f"{n_same}/{n_fake}", f"{n_same} pass-through, {n_fake} rebuilt", node=lp)
     ys = [n for n in body_walk(f.node) if isinstance(n, (ast.Yield, ast.YieldFrom))]
     oky = all(isinstance(y, ast.Yield) and y.value in cons and in_body(lp, y) for y in ys) and len(ys) == len(cons)
     srt = [c for c in calls(f) if isinstance(c.func, ast.Name) and c.func.id in ("sorted", "reversed", "list")]
     ctx.expect("R-ORDER", f, "notes are emitted in stream order: one loop, yields only, no sorting or buffering", oky and not srt and len(for_loops(f)) == 1, "", "", node=lp)
-    eng = [b for b in locals_of(f).b.get("engine", []) if b.kind == "assign"]
+    eng = [b for b in locals_of(f).b.get(E, []) if b.kind == "assign"]
     oke = len(eng) == 1 and isinstance(eng[0].value, ast.Call) and callee_name(ctx, f, eng[0].value) == "simfile.timing.engine.TimingEngine" \
         and len(eng[0].value.args) == 1 and isinstance(eng[0].value.args[0], ast.Name) and eng[0].value.args[0].id == f.param_names()[1]
     ctx.expect("R-FWD", f, "the engine is built from the caller's timing data", oke, "", "", node=f.node)
